@@ -211,6 +211,41 @@ def decode_serve_cfg(cfg, vals):
     }
 
 
+def decode_mp(c, vals):
+    """mp_step_*: len:u64 | 3 x (a:u64 b:u64) | 3 x hlen:usize | x:u64 | ev_n:u64.
+    The pre-state (part index, bytes of the current part still owed) is reached by a multi-range
+    GET whose entity streams deliver earlier parts in one chunk each and the current part up to
+    the pre-state's position; the step's event follows."""
+    r = Reader(vals)
+    ln = r.u64()
+    rs = [(r.u64(), r.u64()) for _ in range(3)]
+    _hl = [r.usize() for _ in range(3)]
+    x = r.u64()
+    ev_n = r.u64()
+    n, state = c["n"], c["state"]
+    i, odd = state >> 1, state & 1 == 1
+    specs = []
+    for (a, b) in rs[:n]:
+        if not (a < b <= ln):
+            return None
+        specs.append("%d-%d" % (a, b - 1))
+    scripts = [[] for _ in range(3)]
+    if odd and i < n:
+        li = rs[i][1] - rs[i][0]
+        evs = []
+        if c["cur"]:
+            if x > li:
+                return None
+            evs.append({"k": "chunk", "n": li - x} if li - x > 0 else {"k": "pending"})
+        evs.append({"p": {"k": "pending"}, "c": {"k": "chunk", "n": ev_n}, "e": {"k": "err"}}[c["ev"]])
+        scripts[i] = evs
+    return {
+        "kind": "serve", "method": "GET", "headers": [["range", "bytes=" + ", ".join(specs)]],
+        "entity": {"len": ln, "etag": None, "mtime": None, "headers": []},
+        "now_secs": 1000000, "scripts": scripts, "polls": 24,
+    }
+
+
 def decode_precond(arms, vals):
     """precond_gNN: sk:u16 has_mtime:bool m_secs:u64 m_nanos:u32 ius:u64 ims:u64"""
     r = Reader(vals)
